@@ -1,7 +1,7 @@
 """Per-property exploration: which harness runs, what is compared, which oracle clauses count."""
 import os, sys, json, random, glob, collections, multiprocessing, time
 VERIF = os.path.dirname(os.path.dirname(os.path.abspath(__file__)))
-from harness import common, l1, store_oracle, tbuffer, storeq, factory, factory_oracle
+from harness import common, l1, store_oracle, tbuffer, tfleet, storeq, factory, factory_oracle
 
 # fields of a row whose disagreement (model vs implementation) concerns each store-level property
 L1_FIELDS = {
@@ -210,6 +210,82 @@ def run_c11(pid, tier, seed):
     return res
 
 
+def _c14_worker(args):
+    n, seed, corpus = args
+    rng = random.Random(seed)
+    cases = list(corpus) + [tfleet.gen_case(rng, rng.randrange(10, 80)) for _ in range(n)]
+    out = dict(evals=0, tags=collections.Counter(), sigs=set(), dis=[], viol=[], samples=[], ops=collections.Counter())
+    for lo in range(0, len(cases), 300):
+        for r in tfleet.run_batch(cases[lo:lo + 300]):
+            c = r["case"]
+            out["evals"] += 1
+            tg = set()
+            arrivals = [a for a, b in zip(r["impl"], [dict(ready="")] + r["impl"]) if a["ready"] != b["ready"] and len(a["ready"]) > len(b["ready"])]
+            if arrivals:
+                tg.add("trip-arrived")
+            if len(arrivals) > 1:
+                tg.add("several-trips")
+            if any(a["intransit"] and o[0] == "LOAD" and a["res"] == "ok" for o, a in zip(r["micro"], r["impl"])):
+                tg.add("load-during-trip")
+            if c["transit"] == 0:
+                tg.add("zero-transit")
+            if any(o[0] == "GET" and a["res"].startswith("item") for o, a in zip(r["micro"], r["impl"])):
+                tg.add("consumed")
+            if any(o[0] in ("CPUT", "CGET") for o in r["micro"]):
+                tg.add("cancel")
+            out["tags"].update(tg)
+            out["sigs"].add((c["cap"], c["fdelay"], c["transit"], tuple(sorted(tg)), tuple(o[0] for o in r["micro"])))
+            for o in r["micro"]:
+                out["ops"][o[0]] += 1
+            if r["dis"]:
+                i, da, db = r["dis"]
+                out["dis"].append(dict(case=c, op_index=i, micro_op=list(r["micro"][i]), impl=da, model=db))
+            v = tfleet.oracle(c, r["micro"], r["impl"])
+            if v:
+                i, msg = v[0]
+                out["viol"].append(dict(**{"class": "tfleet"}, message=msg, op_index=i, case=c,
+                                        micro=[list(o) for o in r["micro"][:i + 1]], impl_rows=r["impl"][max(0, i - 2):i + 1]))
+            if not out["samples"] and "several-trips" in tg:
+                out["samples"].append(dict(cap=c["cap"], delay=c["fdelay"], transit=c["transit"], ops=[list(o) for o in r["micro"][:25]]))
+    out["sigs"] = len(out["sigs"])
+    out["dis"], out["viol"] = out["dis"][:3], out["viol"][:3]
+    return out
+
+
+def run_c14(pid, tier, seed):
+    """(1) the real Fleet edge driven op by op against the extracted timed model TFleet; (2) whole
+    factories with Fleet edges against the factory model (movement lines of fleet edges)."""
+    n = 1200 if tier == "quick" else 96000
+    shards = 8 if tier == "quick" else 16
+    corpus = [c for c in load_corpus("tfleet", None)]
+    jobs = [(n // shards, seed * 613 + k, corpus if k == 0 else []) for k in range(shards)]
+    nf = 640 if tier == "quick" else 32000
+    fjobs = [("C14", nf // 16, seed * 257 + k, []) for k in range(16)]
+    with multiprocessing.Pool(16) as pool:
+        a1 = pool.map_async(_c14_worker, jobs)
+        a2 = pool.map_async(_f_worker, fjobs)
+        outs, fouts = a1.get(), a2.get()
+    res = dict(evaluations=0, distinct_nontrivial=0, samples=[], traces=0, disagreements=[], violations=[], known=[])
+    tags, ops, ftags = collections.Counter(), collections.Counter(), collections.Counter()
+    for o in outs:
+        res["evaluations"] += o["evals"]; res["traces"] += o["evals"]; res["distinct_nontrivial"] += o["sigs"]
+        res["disagreements"] += o["dis"]; res["violations"] += o["viol"]; res["samples"] += o["samples"]
+        tags.update(o["tags"]); ops.update(o["ops"])
+    for o in fouts:
+        res["evaluations"] += o["evals"]; res["traces"] += o["evals"]; res["distinct_nontrivial"] += o["sigs"]
+        res["disagreements"] += o["dis"]; res["violations"] += o["viol"]
+        ftags.update(o["tags"])
+    res["rule"] = ("(1) online-generated histories on the real Fleet edge (capacity 1-4, delay 1-5, transit delay 0-3, 1-3 callers, "
+                   "reserve / load / get / cancel, single kernel pops and time advances, so loads fall before, in the instant of and "
+                   "during trips) replayed on the extracted timed model TFleet: every field of the store, the in-transit list and the "
+                   "clock compared after every micro-step; (2) random factories, all with at least one Fleet edge, compared with "
+                   "the factory model on the timed movements over Fleet edges; distinct = distinct (parameters, situations, op-kind "
+                   "sequence) / factory signatures")
+    res["distribution"] = dict(fleet_histories_reaching=dict(tags), micro_ops=dict(ops), factories_reaching=dict(ftags))
+    res["domain"] = "Fleet edge over FleetStore, alone and inside factories"
+    return res
+
+
 # ------------------------------------------------------------------ factory-level properties (L2)
 # which kinds of canonical output lines concern which property (first differing line of a disagreement)
 F_LINES = {
@@ -230,6 +306,8 @@ def _f_worker(args):
     pid, n, seed, corpus = args
     rng = random.Random(seed)
     cfgs = list(corpus) + [factory.gen_config(rng, with_fleet=True) if i % 3 else factory.gen_config_sc(rng) for i in range(n)]
+    if pid == "C14":
+        cfgs = [c for c in cfgs if any(e["kind"] == "fleet" for e in c["edges"])]
     if pid in ("C20", "C15"):
         cfgs += [factory.gen_invalid(rng) for _ in range(max(4, n // 3))]
     out = dict(evals=0, tags=collections.Counter(), sigs=set(), dis=[], viol=[], samples=[], lines=0)
@@ -254,6 +332,10 @@ def _f_worker(args):
             if r["dis"]:
                 k, a, b = r["dis"]
                 kinds = {str(x).split()[0] for x in (a, b) if x}
+                if pid == "C14":
+                    # only movements over Fleet edges concern C14
+                    kinds = {str(x).split()[0] for x in (a, b) if x and str(x).split()[0] in ("P", "T")
+                             and c["edges"][int(str(x).split()[2])]["kind"] == "fleet"}
                 if kinds & F_LINES[pid]:
                     out["dis"].append(dict(case=c, line_index=k, impl=a, model=b))
             for prop, msg in factory_oracle.check(c, r["impl"]):
@@ -400,6 +482,11 @@ SPECS = {
     "C16": dict(run=run_factory, trusted=L2_TRUST),
     "C20": dict(run=run_factory, trusted=L2_TRUST + ["crash freedom and finiteness per instant are explored (valid + invalid configuration streams), not proved"]),
     "C19": dict(run=run_c19, trusted=L2_TRUST + ["hash / identity dependence is a property of the CPython run, not of the model: it is tested (several hash seeds, allocation histories), not proved"]),
+    "C14": dict(run=run_c14, trusted=["modelled, not verified: Fleet / FleetStore classes and the SimPy kernel (its contract is the legality "
+                                      "condition of FActivate / FArrive / FIdle in the timed model, checked against the real kernel by the correspondence)",
+                                      "liveness half of the waiting bound ('the item does become available') rests on the kernel processing due events; "
+                                      "the theorem bounds the availability time of every item that became available",
+                                      "integer delays in the harness"]),
     "C11": dict(run=run_c11, trusted=["modelled, not verified: Buffer / BufferStore classes, SimPy kernel (its contract 'an event scheduled "
                                       "for t is processed at now = t, the clock never passes a pending event' is the legality condition "
                                       "of TFire / TIdle in the timed model and is checked against the real kernel by the correspondence)",
